@@ -137,3 +137,43 @@ claim('C15',
       'Trusted: Lean kernel, correspondence harness, gmpy2.popcount / int.to_bytes / bytes.translate / format as modelled.',
       'Lean 4 proof that an executable model equals the one-line definitions + differential correspondence with the Python implementation',
       'DESIGN.md section 5 C15')
+
+claim('C13',
+      'DECIDED (third sentence of C13 only): Lean theorems (Props/C13.lean) over an abstract number type — every comparison '
+      'semantics incl. ties and NaN, every fail/repeat level, every minimum repetition count, every value of the float tail '
+      'Igamc(k, sum -log p), every history of test outcomes (named lists, empty lists, names that disappear, single floats/ints '
+      'treated as [("result", p)], InsufficientDataError): after any history a sub-test is FAILED iff CombinedPValue(p-values) < fail level, '
+      'PASSED iff not failed and CombinedPValue([repeat]*k) < CombinedPValue(p-values), UNDECIDED otherwise (ties are undecided / not failed); '
+      'the recorded combined value is CombinedPValue of the recorded p-values (empty sample raises, singleton is itself, minimum == 0 gives 0); '
+      'finished iff InsufficientDataError, or no sub-test of the last result undecided and runs >= min_repetitions; TestSource runs exactly the '
+      'unfinished structures each round, loops exactly while one is unfinished and returns True iff some sub-test of some test is FAILED (None when '
+      'no test is selected); TestBitString runs each test once with fail = repeat level and returns True iff some sub-test is FAILED. '
+      'NOT DECIDED and not claimed: sentences 1-2 of C13 (p-values of a cryptographic generator are not systematically small; the documented '
+      'weak generators fail the documented tests) — distributional statements, see DESIGN.md section 7.',
+      'Trusted: Lean kernel, correspondence harness (real TestStructure/TestSource/TestBitString/CombinedPValue driven with scripted test outcomes, '
+      '~6k histories per run, recorded Igamc values passed as exact ratios), shims. The statistical tests themselves and scipy gammaincc/math.log are oracles. '
+      'TestSource termination is not claimed (the model loop is fuelled; NaN p-values keep a sub-test UNDECIDED forever).',
+      'Lean 4 proof of the decision logic over an executable model + differential correspondence with the Python implementation',
+      'DESIGN.md section 5 C13')
+
+claim('C16',
+      'Lean theorems (Props/C16.lean). util.py: for EVERY history of SetTestResult/AttachInfo/AttachFactors calls on EVERY TestInfo (fresh, annotated by an '
+      'earlier run, hand-edited): weak flag never reset; old entries kept position by position with result and severity never lowered; entries never '
+      'duplicated (names stay unique if they were); version set once by the first SetTestResult and never changed; "weak = some entry positive" preserved; '
+      'attached factor set = union of the initial set and everything attached under that name (never loses a factor) unless overwritten by a plain AttachInfo; '
+      'GetHighestSeverity = max severity of the positive entries. Checks/_CheckArtifacts/CheckAllRSA/CheckAllEC/CheckAllECDSASigs for every batch, every '
+      'sub-list/order/repetition of checks and EVERY per-check verdict oracle: pre-annotated artefacts keep all of the above and '
+      '(some artefact weak afterwards) <-> (one was weak before or the call returned True); fresh artefacts carry exactly one entry per active check applicable '
+      'to them (registry regenerated from /repo; needsCurve checks skip unknown curves; CheckIssuerKey always applies), named after the check, with the '
+      'documented severity (CheckLowHammingWeight: UNKNOWN when flagged but unfactored; CheckIssuerKey: highest severity among the issuer key\'s failed EC checks), '
+      'weak <-> some entry positive, version recorded, return value <-> some artefact weak. issuer_verdict: with issuer keys de-duplicated by (curve_type,x,y) a '
+      'signature\'s CheckIssuerKey entry is positive iff the EC checks flag the ECKey built from that signature\'s issuer_key_info. '
+      'KNOWN FINDING on the pinned tree: CheckIssuerKey de-duplicates by (x,y) only, so a signature whose issuer coordinates also occur with another curve_type '
+      'receives the other key\'s verdict (Lean: issuer_verdict_pinned_fails; partial theorem for batches where equal points have equal curves; '
+      'repair fixes/issuer-key-dedup-curve.diff); the check reports it as KNOWN-FINDING and accepts either variant.',
+      'Trusted: Lean kernel, correspondence harness (real protobufs through the shim; ~2k random util histories; ~150 _CheckArtifacts / entry-point calls per run on '
+      'mixed weak/healthy, fresh/pre-annotated/re-run batches with a spy recording each check\'s verdict), shims, skeleton flags read off the Check sources by '
+      'harness/consts/checks.py. Exceptions other than AttachFactors on an unparsable stored value (e.g. BatchGCD([]) on the pinned tree) are outside the model (C18). '
+      'quick tier replaces ExtendedBatchDL / HNP solvers / Pollard bound / max_diff by planted-answer stubs or smaller parameters in most scenarios.',
+      'Lean 4 proof of invariants by induction over operation histories over an executable model + differential correspondence with the Python implementation',
+      'DESIGN.md section 5 C16')
